@@ -1,5 +1,5 @@
-\* exhaustive: any client of the optracker package (every exported method, any argument)
-CONSTANTS CIDS = {"c1", "c2"} MaxOps = 3 K0 = 1 Q0 = 1 Level0 = "api" Strict = TRUE Lag = FALSE
+\* exhaustive, quick: any client of the optracker package (every exported method, any argument)
+CONSTANTS CIDS = {"c1"} MaxOps = 2 K0 = 1 Q0 = 1 Level0 = "api" Strict = TRUE Lag = FALSE
 INIT Init
-NEXT Next
+NEXT ApiNext
 INVARIANTS TypeOK TableCid ReplacedIsCancelled CleanOnlyOwn
